@@ -598,12 +598,9 @@ func run(c Case, rec *h.Rec) {
 	if rec.Failed() {
 		return
 	}
+	rec.ClassIf(!hasPlaced, "index_without_references")
 	if err != nil {
-		if !hasPlaced {
-			rec.Class("index_without_references_reads_as_nil")
-			return
-		}
-		rec.Failf("%s: reading the written index: %v", c.Kind, err)
+		rec.Failf("%s: reading the written index (holds placed records: %v): %v", c.Kind, hasPlaced, err)
 		return
 	}
 	w2, err := q2.Write()
